@@ -334,6 +334,8 @@ class FnTir:
             s = self.sink_of(recv)
             if s is not None:
                 return ("w", s, ("reset",))
+        if k == "mcall" and name in ("reserve", "reserve_exact", "shrink_to_fit", "capacity", "len", "is_empty") and self.sink_of(recv) is not None:
+            return ("seq", [self.W(a) for a in args])        # no text is written
         # identifier writes
         if callee in ("crate::types::Iden::prepare", "crate::types::Iden::unquoted") and k == "mcall":
             s = self.sink_of(args[0]) if args else None
